@@ -45,14 +45,15 @@ def _out(spec):
 class World:
     """interprets op lists against the library and the model side by side"""
 
-    def __init__(self):
+    def __init__(self, user=False):
         self.pool = []        # dicts: kind 'mtx'|'itx'|'blk'|'part', obj, model
         self.trace = []       # for non-triviality
+        self.user = user      # mutable objects of a caller's SUBCLASSES (assignment hook overridden) instead of the library's classes
         self.add_mtx({'version': 1, 'vin': [(b'\x11' * 32, 0, b'', 0xffffffff)], 'vout': [(1, b'\x51')], 'wit': None, 'locktime': 0})
 
     # -- helpers
     def add_mtx(self, m):
-        self.pool.append({'kind': 'mtx', 'obj': libx.mk_tx(m, True), 'model': copy.deepcopy(m)})
+        self.pool.append({'kind': 'mtx', 'obj': libx.user_mut_tx(m) if self.user else libx.mk_tx(m, True), 'model': copy.deepcopy(m)})
 
     def txs(self, kinds=('mtx', 'itx')):
         return [e for e in self.pool if e['kind'] in kinds]
@@ -70,6 +71,14 @@ class World:
 
     def apply(self, op):
         k = op[0]
+        if k == 'user_classes':
+            # (first step of a history) the mutable objects of this history are instances of a caller's subclasses
+            if len(self.trace) == 0:
+                self.user = True
+                self.pool = []
+                self.add_mtx({'version': 1, 'vin': [(b'\x11' * 32, 0, b'', 0xffffffff)], 'vout': [(1, b'\x51')], 'wit': None, 'locktime': 0})
+            self.trace.append(k)
+            return
         self.trace.append(k)
         if k in ('set', 'in_set', 'out_set', 'in_add', 'in_del', 'in_rep', 'out_add', 'out_del', 'out_rep', 'wit', 'wit_slot'):
             e = self.pick(op[1], ('mtx',))
@@ -358,9 +367,24 @@ def run_ops(ops):
     return w
 
 
+def check_pickled(case):
+    """IF immutable objects can be pickled: a copy that travelled to another interpreter (another hash seed) after its hash() and
+    identifiers had been read here carries no stale identity - it equals, hashes and identifies like a twin parsed over there"""
+    m = {'version': 2, 'vin': [(b'\x07' * 32, 1, b'\x51', 5), (b'\x08' * 32, 0, b'', 6)], 'vout': [(5, b'\x51')], 'wit': [[b'\xaa'], []], 'locktime': 9}
+    t = libx.mk_tx(m, False)
+    objs = [t, t.vin[0], t.vin[1].prevout, t.vout[0], libx.mk_tx(m, True), CTransaction.from_tx(libx.mk_tx(m, True))]
+    bad = libx.pickle_across_processes(objs)
+    if bad:
+        raise Violation('pickle/stale-identity', 'objects whose hash() had been read, pickled and loaded in another interpreter disagree with an '
+                        'equal-valued twin there: %s' % ', '.join(type(objs[i]).__name__ for i in bad))
+    return {'nt': bad is not None, 'evals': len(objs), 'cls': ['pickle-supported' if bad is not None else 'pickle-not-supported']}
+
+
 def check_case(case):
     if case.get('kind') == 'immut':
         return check_immut(case)
+    if case.get('kind') == 'pickled':
+        return check_pickled(case)
     try:
         run_ops(case['ops'])
     except Violation as v:
@@ -468,6 +492,11 @@ def machine_factory(ctx):
                 if ctx.should_raise(v, v.case):
                     raise
                 self.dead = True
+
+        @initialize(u=st.integers(0, 3))
+        def start(self, u):
+            if u == 0:
+                self.do(['user_classes'])
 
         @rule(t=idx, f=st.sampled_from(['version', 'locktime']), v=gen.u32)
         def set_field(self, t, f, v):
@@ -621,6 +650,7 @@ def t_exhaustive(ctx):
     if ctx.shard == 0:
         ctx.run({'kind': 'immut', 'value': 1})
         ctx.run({'kind': 'immut', 'value': None})
+        ctx.run({'kind': 'pickled'})
         ctx.exhaustive.append('setattr/delattr on every slot of every immutable class')
 
 
